@@ -49,6 +49,7 @@ class TlcResult:
         self.ok = False         # finished without any error
         self.postcondition_failed = False
         self.timeout = False
+        self.eval_error = False
 
     def summary(self):
         return {"generated": self.generated, "distinct": self.distinct, "depth": self.depth,
@@ -244,8 +245,18 @@ class Check:
         if res.timeout and mode != "simulate":
             self.fail_tool("TLC timeout on %s (%ds)" % (module, timeout))
         bad_tool = [l for l in res.error_lines if not (expect_violation or res.postcondition_failed)]
-        fatal = ("Parsing or semantic analysis failed" in text or "java.lang." in text and "Exception" in text
-                 or "Error: TLC threw an unexpected exception" in text or "Fatal error" in text)
+        parse_fail = "Parsing or semantic analysis failed" in text or "Fatal error" in text
+        fatal = (parse_fail or "java.lang." in text and "Exception" in text
+                 or "Error: TLC threw an unexpected exception" in text)
+        if mode == "trace" and fatal and not parse_fail:
+            # An evaluation error while replaying a recorded trace means the logged values left the
+            # domain the spec expects (the code under test does not follow the spec here): that is
+            # a rejected trace (conformance drift for the caller), not a tooling failure.
+            res.ok = False
+            res.eval_error = True
+            res.postcondition_failed = True
+            self.log("tlc %s: evaluation error on the recorded trace - treated as 'trace rejected'" % module)
+            return res
         if fatal:
             sys.stdout.write(text[-3000:])
             self.fail_tool("TLC failed on %s (see %s)" % (module, out_path))
